@@ -175,6 +175,20 @@ Fixpoint st_compact_ok (s : st) (start limit : okey) : bool :=
   | _ => true
   end.
 
+(* Stat(property): nil error or not.  leveldb.go answers disk.size itself and hands "leveldb."+p to
+   goleveldb (stats, iostats, alivesnaps exist; the flush requests do not); pebble.go knows
+   async_flush, sync_flush, iostats, disk.size, stats; devnull answers everything. *)
+Fixpoint st_stat_ok (s : st) (prop : nat) : bool :=
+  match s with
+  | Eng ELdb _ => match prop with 0 | 1 | 2 | 5 => true | _ => false end%nat
+  | Eng EPbl _ => match prop with 0 | 1 | 2 | 3 | 4 => true | _ => false end%nat
+  | Mem _ => true
+  | Flu _ u => st_stat_ok u prop
+  | Tab _ u => st_stat_ok u prop
+  | Syn u => st_stat_ok u prop
+  | Lzy _ i u => if i then st_stat_ok u prop else true
+  end.
+
 (* ---- addressing ---- *)
 Fixpoint st_sub (d : nat) (s : st) : st :=
   match d with
@@ -253,6 +267,7 @@ Definition run_op1 (ideal : N) (r : rstate) (o : op) : rstate * list obs :=
   | OLit i h p s0 => (set_lives r (set_nth i (Some (st_iter (h_view h s) p s0)) None (r_lives r)), [])
   | OLNext i n => let '(l, out) := live_next (r_lives r) i n in (set_lives r l, [out])
   | OLRel i => (set_lives r (set_nth i None None (r_lives r)), [])
+  | OStat h p => (r, [BStat (st_stat_ok (h_view h s) p)])
   | OInit d => (set_store r (st_upd d st_init s), [])
   end.
 
